@@ -51,7 +51,7 @@ static inline void setup(struct VLF* f, struct NDT* t) {
 void h_read(void) {
   struct VLF f; struct NDT t; SymbolString in = nondet_SS(); struct tokout o; unsigned fmt = nondet_uint();
   setup(&f, &t); t.m_replacement = nondet_uint(); __CPROVER_assume(t.m_replacement < 900);
-  g_raw_result = nondet_int(); g_raw_value = nondet_uint(); __CPROVER_assume(g_raw_result <= 1 && g_raw_result >= -20 && g_raw_value < 900);
+  g_raw_result = nondet_int(); g_raw_value = nondet_uint(); __CPROVER_assume(g_raw_result <= 1 && g_raw_result >= -30 && g_raw_value < 900);
   o.n = 0; o.cur_width = nondet_int(); o.is_dec = nondet_bool();
   __CPROVER_assume((fmt & ~(unsigned)(OF_JSON | OF_NUMERIC | OF_VALUENAME | OF_NAMES)) == 0 && in.m_data.n <= SS_CAP);
   result_t r = VLF_readSymbols(&f, &in, 0, fmt, &o);
